@@ -7,7 +7,8 @@
 (*     insn  [mn, form, e]          label  [name, hasBody, body]     braces [sid, body]      *)
 (*     const [name, e]              data   [w, es]                   loop   [n, sid, body]   *)
 (*     assert [aid, e, hasMsg, msg] test   [name, body]              useseg [name, body]     *)
-(*     setpc [e]   (`* = e')                                                                  *)
+(*     setpc [e]   (`* = e')     import [file, sid]   (`.import * from "file"'; top level)     *)
+(*   files    sequence of [name, items]: the importable files                                 *)
 (*   expressions are Expr trees; identifier nodes carry `name' (unique per spelling) and     *)
 (*   `path'; two more node kinds exist in assertions: ram [e] and ram16 [e].                 *)
 (*                                                                                          *)
@@ -46,28 +47,20 @@ EnvOf(t, tab, scope) ==
 Unresolved(t, tab, scope) == {i \in Ids(t) : ~Resolvable(tab, scope, i)}
 
 Bottom == [k |-> "bin", op |-> "/", l |-> Num(1), r |-> Num(0)]      \* a tree whose value is E!UNDEF
-(* marks a read that runs off the end of memory (the high byte of ram16($ffff)): it "cannot be evaluated" *)
-NoRead == [k |-> "id", name |-> "$noread", path |-> <<"$noread">>, mod |-> ""]
-RECURSIVE NoRam(_, _, _, _), HasNoRead(_)
-(* replace ram(e) / ram16(e) by the byte / little-endian word found in memory *)
+RECURSIVE NoRam(_, _, _, _)
+(* replace ram(e) / ram16(e) by the byte / little-endian word found in memory.  ram16($ffff) takes its high byte *)
+(* from $0000: reads wrap around the 64K address space, as the implementation does since 730f81e (the property   *)
+(* itself is silent about a word at the last address; this mirrors the code).                                     *)
 NoRam(t, env, pc, mem) ==
   CASE t.k \in {"ram", "ram16"} ->
-         LET t1 == NoRam(t.e, env, pc, mem)
-             v == E!Eval(t1, env, pc) IN
-         IF HasNoRead(t1) THEN NoRead
-         ELSE IF v.k # "num" THEN Bottom
+         LET v == E!Eval(NoRam(t.e, env, pc, mem), env, pc) IN
+         IF v.k # "num" THEN Bottom
          ELSE IF v.n < 0 \/ v.n > 65535 THEN Bottom                        \* silent: no such address in the machine
-         ELSE IF t.k = "ram16" /\ v.n = 65535 THEN NoRead                   \* a word has two bytes; there is no $10000
          ELSE Num(IF t.k = "ram" THEN Rd(mem, v.n) ELSE Rd16(mem, v.n))
     [] t.k = "par" -> [t EXCEPT !.e = NoRam(t.e, env, pc, mem)]
     [] t.k = "fac" -> [t EXCEPT !.e = NoRam(t.e, env, pc, mem)]
     [] t.k = "bin" -> [t EXCEPT !.l = NoRam(t.l, env, pc, mem), !.r = NoRam(t.r, env, pc, mem)]
     [] OTHER -> t
-HasNoRead(t) ==
-  CASE t.k = "id" -> t.name = "$noread"
-    [] t.k \in {"par", "fac"} -> HasNoRead(t.e)
-    [] t.k = "bin" -> HasNoRead(t.l) \/ HasNoRead(t.r)
-    [] OTHER -> FALSE
 
 (* CPU registers and flags as symbols.  Whether a set flag reads 1 or its mask bit is not fixed by *)
 (* the property: both conventions are evaluated and an assertion on which they disagree is silent.  *)
@@ -79,19 +72,12 @@ CpuSyms(c, conv) ==
   ("cpu.flags.overflow" :> fl(c.f.v, 64)) @@ ("cpu.flags.negative" :> fl(c.f.n, 128))
 
 (* "true" / "false" (zero, or cannot be evaluated) / "unspec" (the property is silent) *)
-AssertTree(a, c, sigma, conv) ==           \* the assertion's expression with the memory reads done (identifiers must be resolvable)
-  LET tab == CpuSyms(c, conv) @@ a.idx @@ sigma IN NoRam(a.e, EnvOf(a.e, tab, a.scope), a.pc, c.mem)
 TruthC(a, c, sigma, conv) ==
   LET tab == CpuSyms(c, conv) @@ a.idx @@ sigma IN
   IF Unresolved(a.e, tab, a.scope) # {} THEN "false"
   ELSE LET env == EnvOf(a.e, tab, a.scope)
-           t2 == AssertTree(a, c, sigma, conv)
-           v == E!Eval(t2, env, a.pc) IN
-       IF HasNoRead(t2) THEN "false"
-       ELSE IF v.k = "num" THEN (IF v.n = 0 THEN "false" ELSE "true") ELSE "unspec"
-(* the assertion cannot be evaluated because a ram16() runs off the end of memory *)
-ReadsPastTop(a, c, sigma) ==
-  Unresolved(a.e, CpuSyms(c, "mask") @@ a.idx @@ sigma, a.scope) = {} /\ HasNoRead(AssertTree(a, c, sigma, "mask"))
+           v == E!Eval(NoRam(a.e, env, a.pc, c.mem), env, a.pc) IN
+       IF v.k = "num" THEN (IF v.n = 0 THEN "false" ELSE "true") ELSE "unspec"
 Truth(a, c, sigma) ==
   LET m == TruthC(a, c, sigma, "mask") IN IF m = TruthC(a, c, sigma, "bit") THEN m ELSE "unspec"
 
@@ -177,6 +163,18 @@ LayStmt(s, st, sigma, active) ==
     [] s.k = "useseg" ->
         IF s.name \notin DOMAIN st.segs THEN [st EXCEPT !.bad = TRUE]
         ELSE [LaySeq(s.body, [st EXCEPT !.cur = s.name], sigma, active) EXCEPT !.cur = st.cur]
+    [] s.k = "import" ->
+        (* the file is assembled in an anonymous scope below the importing one; everything it defines is then also
+           visible (aliased) in the importing scope.  A test of the file keeps the path through the import scope. *)
+        LET fs == {i \in 1..Len(st.files) : st.files[i].name = s.file} IN
+        IF fs = {} THEN [st EXCEPT !.bad = TRUE]
+        ELSE LET r == LaySeq(st.files[CHOOSE i \in fs : TRUE].items, [st EXCEPT !.scope = Append(@, s.sid)], sigma, active)
+                 from == A!JoinPath(Append(st.scope, s.sid)) \o "."
+                 to == IF st.scope = <<>> THEN "" ELSE A!JoinPath(st.scope) \o "."
+                 exported == {k \in DOMAIN r.tab : A!HasPrefix(k, from)}
+                 alias == [k2 \in {to \o A!Suffix(k, from) : k \in exported} |->
+                             r.tab[CHOOSE k \in exported : to \o A!Suffix(k, from) = k2]] IN
+             [r EXCEPT !.scope = st.scope, !.tab = alias @@ @]
     [] OTHER -> [st EXCEPT !.bad = TRUE]
 
 SegDefs(prj) == IF prj.segdefs = <<>> THEN <<[name |-> "default", bank |-> "default", start |-> DEFAULT_PC]>> ELSE prj.segdefs
@@ -185,7 +183,7 @@ Lay0(prj) ==
   [segs |-> [n \in {sd[i].name : i \in 1..Len(sd)} |->
                [pc |-> (CHOOSE d \in {sd[i] : i \in 1..Len(sd)} : d.name = n).start, mem |-> <<>>]],
    cur |-> sd[1].name, scope |-> <<>>, tab |-> <<>>, idx |-> <<>>, asserts |-> <<>>, entry |-> -1, entry0 |-> -1, entrySeg |-> "",
-   inTest |-> FALSE, first |-> -1, unres |-> FALSE, bad |-> FALSE]
+   files |-> prj.files, inTest |-> FALSE, first |-> -1, unres |-> FALSE, bad |-> FALSE]
 Lay(prj, active, sigma) == LaySeq(prj.items, Lay0(prj), sigma, active)
 
 (* the assembler's fixed point: walk again under the previous walk's symbols until nothing moves *)
@@ -225,6 +223,18 @@ TestNames(ss, scope) ==
                      [] s.k = "useseg" -> TestNames(s.body, scope)
                      [] OTHER -> <<>>
        IN here \o TestNames(Tail(ss), scope)
+
+(* tests of imported files come after those of the entry file (`mos test' orders by file, then position) and are *)
+(* named through the import's scope                                                                              *)
+RECURSIVE ImportedTests(_, _)
+ImportedTests(prj, ss) ==
+  IF ss = <<>> THEN <<>>
+  ELSE LET s == Head(ss) IN
+       (IF s.k = "import" /\ (\E i \in 1..Len(prj.files) : prj.files[i].name = s.file)
+          THEN TestNames(prj.files[CHOOSE i \in 1..Len(prj.files) : prj.files[i].name = s.file].items, <<s.sid>>) ELSE <<>>)
+       \o ImportedTests(prj, Tail(ss))
+OwnTests(prj) == TestNames(prj.items, <<>>)
+AllTests(prj) == OwnTests(prj) \o ImportedTests(prj, prj.items)
 
 (* ---------------------------------------------------------------- the property, declaratively *)
 (* the machine's path from the entry: states before each instruction, ending at a BRK, at an      *)
@@ -310,16 +320,13 @@ Run(T, once) == RunFrom(T, Start(T), once)
 (* been matched on an earlier visit of its pc                                                     *)
 FiresOnceWitness(id) == id.v = "failed" /\ id.visit > 1
 
-(* the two narrow witnesses under which a crash of `mos test' inside test T is a recorded finding:          *)
-(*  "slice":    the property fails T at an assertion whose ram16() runs off the end of memory                *)
+(* the narrow witness under which a crash of `mos test' inside test T is a recorded finding:                *)
 (*  "overflow": T's path, every assertion on it true, arrives at an instruction that touches $FFFF (TopEdge) *)
 (*  ("silent": the property says nothing about T from some point on, so the witness cannot be evaluated)     *)
 CrashWitness(T) ==
   LET id == Ideal(T)
       p == Path(T) IN
-  IF id.v = "failed" /\ (\E j \in 1..Len(T.asserts) : T.asserts[j].aid = id.aid /\ T.asserts[j].pc = p[id.i].pc
-                                                      /\ ReadsPastTop(T.asserts[j], p[id.i], T.sigma)) THEN "slice"
-  ELSE IF id.v = "unspec" /\ Len(p) > 0 /\ TopEdge(p[Len(p)]) /\ Holds(T, p[Len(p)]) /\ Rd(p[Len(p)].mem, p[Len(p)].pc) # 0 THEN "overflow"
+  IF id.v = "unspec" /\ Len(p) > 0 /\ TopEdge(p[Len(p)]) /\ Holds(T, p[Len(p)]) /\ Rd(p[Len(p)].mem, p[Len(p)].pc) # 0 THEN "overflow"
   ELSE IF id.v = "unspec" THEN "silent"          \* the model has left the test earlier (decimal add, unmodelled instruction, fuel): it cannot tell
   ELSE "none"
 
